@@ -350,8 +350,10 @@ where
             if is_terminal {
                 for (i, property) in properties.iter().enumerate() {
                     if ebits.contains(i) {
-                        // Races other threads, but that's fine.
-                        discoveries.insert(property.name, fingerprints.clone());
+                        // Never replace an existing discovery: once a property has one, its bit
+                        // is no longer maintained along paths (see the property loop above), so
+                        // a later terminal state may carry a stale bit.
+                        discoveries.entry(property.name).or_insert(fingerprints.clone());
                     }
                 }
             }
